@@ -265,8 +265,40 @@ func RunC14(r *core.Run) {
 			w.Sample("generated+mutated", core.Esc(u))
 		}
 	})
+	// URIs that end exactly at (or a few bytes before) the 65,535-byte addressing limit
+	r.Stage("at-the-length-limit", r.Pick(300, 6000), func(w *core.Worker, idx int64) {
+		rr := core.NewRand(r.Seed, 0xC14, 4, uint64(idx))
+		total := []int{65535, 65535, 65534, 65533, 65531, 65530, 65500, 32768, 32767, 65280}[rr.Intn(10)]
+		u := limitURI(rr, total)
+		if checkURIParse(w, u) {
+			w.Nontrivial(core.HashBytes(u[:64]) ^ uint64(total)<<40 ^ core.HashBytes(u[len(u)-16:]))
+			w.Inc("accepted")
+			w.Inc("accepted_at_length_limit")
+		}
+	})
+	r.Require("C14 accepted URIs at the length limit", r.Counter("accepted_at_length_limit"), 100)
 	r.Require("C14 accepted URIs", r.Counter("accepted"), 50000)
 	r.Require("C14 tel numbers judged", r.Counter("tel_judged"), 1000)
+}
+
+// limitURI builds a well-formed URI of exactly total bytes in which one component is stretched.
+func limitURI(rr *core.Rand, total int) []byte {
+	shapes := [][2]string{
+		{"sip:", "@h"}, {"sip:u:", "@h"}, {"sip:u@", ""}, {"sip:u@", ";a=b;lr"}, {"sip:u@h;p=", ""}, {"sip:u@h;p=", "?x=y"},
+		{"sip:u@h?k=", ""}, {"sips:u:pw@h:5061;transport=tcp;x=", "?a=b&c=d"}, {"sip:", ""}, {"sip:u@h:5060;", "=1"}, {"tel:+1", ""},
+	}
+	sh := shapes[rr.Intn(len(shapes))]
+	pad := total - len(sh[0]) - len(sh[1])
+	b := make([]byte, 0, total)
+	b = append(b, sh[0]...)
+	c := "abcdefghijklmnopqrstuvwxyz0123456789"[rr.Intn(36)]
+	if sh[0] == "tel:+1" {
+		c = "0123456789"[rr.Intn(10)]
+	}
+	for i := 0; i < pad; i++ {
+		b = append(b, c)
+	}
+	return append(b, sh[1]...)
 }
 
 // ---- C18 ----
@@ -409,7 +441,10 @@ func checkRelocate(w *core.Worker, rr *core.Rand, u []byte, big []byte) {
 							}
 						}
 						// a relocated URI is still a parsed URI: it must be movable again
-						t2 := (t*7 + 13) % (65535 - n)
+						t2 := 0
+						if n < 65535 {
+							t2 = (t*7 + 13) % (65535 - n)
+						}
 						q2 := q
 						var ok2 bool
 						// the second move uses the shortest, a slightly longer and the longest admissible span
@@ -494,5 +529,18 @@ func RunC18(r *core.Run) {
 			w.Sample("generated", core.Esc(u))
 		}
 	})
+	// URIs as long as the addressing limit allows: spans that are a few bytes too short
+	r.Stage("at-the-length-limit", r.Pick(120, 3000), func(w *core.Worker, idx int64) {
+		rr := core.NewRand(r.Seed, 0xC18, 3, uint64(idx))
+		total := []int{65535, 65535, 65534, 65533, 65532, 65531, 65530, 65528, 65500, 32768}[rr.Intn(10)]
+		u := limitURI(rr, total)
+		before := w.Cnt["accepted"]
+		checkRelocate(w, rr, u, getBig(w))
+		if w.Cnt["accepted"] > before {
+			w.Nontrivial(core.HashBytes(u[:64]) ^ uint64(total)<<40 ^ core.HashBytes(u[len(u)-16:]))
+			w.Inc("accepted_at_length_limit")
+		}
+	})
+	r.Require("C18 URIs at the length limit relocated", r.Counter("accepted_at_length_limit"), 50)
 	r.Require("C18 accepted URIs relocated", r.Counter("accepted"), 20000)
 }
